@@ -102,6 +102,15 @@ def _progs(tier: str) -> List[Dict[str, Any]]:
     for items in ([["op", "gelu:F"]], [["op", "linear:nn"], ["op", "gelu:F"], ["op", "gelu:nn"]],
                   [["res", [["op", "gelu:F_tanh"], ["op", "linear:F_nobias"]], "skip_first"], ["op", "gelu:F"]]):
         add(items, replace="builtin")
+    # ... and only for the call they were given to (fresh process: first another module with replacements)
+    for items in ([["op", "gelu:F"]], [["op", "linear:nn"], ["op", "silu:F"], ["op", "gelu:nn"]],
+                  [["res", [["op", "gelu:F_tanh"], ["op", "linear:F_nobias"]], "skip_first"], ["op", "gelu:F"]]):
+        add(items)
+        out[-1]["history"] = "after_replace"
+        out[-1]["fresh"] = True
+        add(items, replace="builtin")
+        out[-1]["history"] = "after_replace"
+        out[-1]["fresh"] = True
     if tier == "thorough":
         for n, items in enumerate(chains(SMALL, 3)):
             if len(items) == 3:
@@ -214,6 +223,16 @@ def run_case(case: Dict[str, Any]) -> Dict[str, Any]:
             viol.append({"key": ident + "|original_modified", "msg": src})
         return _compare(viol, ident, src, sem, y_imp, g_imp, y_ref, g_ref, nres)
     try:
+        if case.get("history") == "after_replace":
+            # process history: ANOTHER module was unit-scaled with a user replacement (and run) first;
+            # replacements hold for that call only
+            ident += "|after_replace_call"
+            oprog = {"items": [["op", "linear:nn"], ["op", "gelu:F"]], "first": "x", "sink": "sum", "root": "container", "dtype": "float64"}
+            om, _ = build(oprog, case["seed"] + 3)
+            ou = unit_scale(om, replace={F.gelu: _my_act, F.silu: _my_act})
+            torch._dynamo.reset()
+            oin = inputs(oprog, case["seed"])
+            ou(*[a.clone() for a in oin])
         u = unit_scale(m, replace=replace) if replace else unit_scale(m)
         u.backends.append(lambda gm, ex: (captured.append(gm), gm)[1])
         torch._dynamo.reset()
